@@ -205,6 +205,9 @@ class Type3Tag(nfc.tag.Tag):
             if attributes['ver'] >> 4 != 1:
                 log.debug("unsupported ndef mapping major version")
                 return None
+            if attributes['nbr'] == 0:
+                log.debug("invalid attribute data, no block can be read")
+                return None
 
             last_block_number = 1 + (attributes['ln'] + 15) // 16
             data = bytearray()
